@@ -32,8 +32,8 @@ def name(si, ei):
 def build(files, link, rev, pydir=False):
     t = FO.Tree()
     t.add_dir('/r')
-    if pydir:            # a *directory* called x.py next to the files: it is no source file
-        t.add_dir('/r/x.py')
+    if pydir:            # a *directory* called y.py next to the files: it is no source file
+        t.add_dir('/r/y.py')
         t.add_dir('/r/CVS')
         t.add_file('/r/CVS/old.pyc')
     for d in ('/r/sub', '/r/__pycache__', '/r/.git', '/r/my-dir', '/r/sub/deep'):
